@@ -7,7 +7,7 @@
    the window is so far behind the dispatch pointer that every active worker still has a task in the window (no
    starvation of the shrinking window). *)
 From Coq Require Import List Arith Bool Lia.
-From PD Require Import Base SdlModel SdlProofs SdlMapProofs SdlIterWorker.
+From PD Require Import Base SdlModel SdlProofs SdlMapProofs SdlIterWorker SdlFault.
 From PD Require Import SdlIterRef.
 Import ListNotations.
 Open Scope nat_scope.
@@ -1884,6 +1884,278 @@ Proof.
            unfold sv, arrived in Hnact. cbn [m_status isstop] in Hnact. lia.
 Qed.
 
+Definition benignF (o : foutcome) : Prop := (exists ws, o = FWorkerDied ws) \/ o = FO OFuel.
+Definition postF (rest : list (list nat)) (o : foutcome) (s' : ms) : Prop :=
+  benignF o \/
+  match rest with
+  | [] => o = FO OStop
+  | b :: rest' => o = FO (OBatch b) /\ exists gw' rd' a' R', InvC gw' rd' a' R' s' /\ Rest gw' rd' R' s' rest' /\ Act gw' rd' a' s' /\
+                    InvS (m_ny s') gw' rd' s' /\ InvW gw' rd' a' s' /\ InvX gw' rd' s'
+  end.
+
+(* _next_data under ANY fault schedule (worker deaths, poll time-outs, arrivals in any order): it hands out exactly the batch that is
+   due, or reports StopIteration when nothing is left, or raises the worker-died error (or the model's fuel runs out) — never a wrong
+   batch, never an early StopIteration, never an assertion, never an endless wait with nobody left to wait for *)
+Lemma next_data_f_iter : forall fuel gw rd a R s rest cr evs,
+  InvC gw rd a R s -> Rest gw rd R s rest -> Act gw rd a s -> InvS (m_ny s) gw rd s -> InvW gw rd a s -> InvX gw rd s ->
+  exists o s' cr' evs', next_data_f fuel c s cr evs = (o, s', cr', evs') /\ postF rest o s'.
+Proof.
+  induction fuel as [|f IH]; intros gw rd a R s rest cr evs H HR HA HS HWw HX.
+  { eexists _, _, _, _. split; [reflexivity|]. left. right. reflexivity. }
+  cbn [next_data_f].
+  pose proof (skip_spec (S (m_send s)) gw rd a R s rest H HR HA ltac:(lia)) as Hskip.
+  pose proof (skip_invS (S (m_send s)) gw rd a R s (m_ny s) H HA HS) as HS1.
+  pose proof (skip_invW (S (m_send s)) gw rd a R s H HWw) as HW1.
+  pose proof (skip_invX (S (m_send s)) gw rd a R s H HWw HX) as HX1.
+  destruct (skip_retired (S (m_send s)) s) as [found s1]. cbn [snd] in HS1, HW1, HX1.
+  destruct Hskip as (H1 & HR1 & HA1 & Hfr & Hf).
+  assert (m_ny s1 = m_ny s) as Eny1 by (destruct Hfr as (_ & _ & _ & _ & E & _); exact E). rewrite <- Eny1 in HS1.
+  clear H HR HA HS HWw HX Hfr. destruct found; cbn [negb].
+  2:{ assert (rest = []) as ->.
+    { unfold Rest in HR1. rewrite Hf in HR1. unfold wdat in HR1. rewrite Nat.sub_diag in HR1. cbn [seq flat_map app] in HR1.
+      rewrite HR1. apply refsuf_nil; [exact (c_cyc _ _ _ _ _ H1)|].
+      intros v Hv. apply (inactive_beyond _ _ _ _ _ H1 v Hv). destruct HA1 as (_ & A2 & _). exact (A2 Hf v Hv). }
+    eexists _, _, _, _. split; [reflexivity|]. right. reflexivity. }
+  destruct Hf as (Hlt & w & r & Ek & Hr). rewrite Ek.
+  pose proof (c_info _ _ _ _ _ H1 (m_rcvd s1)) as Gk. rewrite Ek in Gk. destruct Gk as (_ & Gw & Gr).
+  destruct r as [[res st]|].
+  - (* the result of the first task is already there *)
+    destruct Gr as [[Gx _]|(st1 & Gx & Ga)]; [discriminate|]. injection Gx as Gres _.
+    pose proof (w_i _ _ _ _ HW1 _ _ _ _ Ek) as Hstv.
+    destruct (ans_cases w (rd (m_rcvd s1))) as [(b & E1 & E2 & E3)|(E1 & E2 & E3)]; rewrite E1 in Gres; subst res.
+    + subst w.
+      destruct (handout gw rd a R s1 (m_wsnap s1) b st st rest H1 HR1 HA1 HS1 Hlt Ek HW1 eq_refl Hstv HX1 (fun HI => x_i _ _ _ HX1 HI _ _ _ _ Ek))
+        as (rest' & sF & gw' & rd' & R' & -> & EF & HF & HRF & HAF & HSF & EnF & HWF & HXF & HPF).
+      unfold passed in EF. change (fset (A:=wsave)) with (@set_nth wsave). rewrite EF. eexists _, _, _, _. split; [reflexivity|]. right. split; [reflexivity|]. exists gw', rd', a, R'. auto 12.
+    + subst w. set (ws := match st with Some x => set_nth (m_wsnap s1) (gw (m_rcvd s1)) x | None => m_wsnap s1 end).
+      assert (act s1 (gw (m_rcvd s1)) = false) as Hina.
+      { assert (gw (m_rcvd s1) < W) as Hw by (apply (c_gw _ _ _ _ _ H1); exact Hlt).
+        destruct (c_fut _ _ _ _ _ H1 _ Hw) as (_ & _ & _ & F4). rewrite F4.
+        replace (nb B (gw (m_rcvd s1)) <? a (gw (m_rcvd s1))) with true by (symmetry; apply Nat.ltb_lt; lia). reflexivity. }
+      assert (Some (RStop, st) <> None) as Hsome by discriminate.
+      pose proof (pass_inv gw rd a R s1 ws _ _ H1 Hlt Ek (or_introl Hsome)) as H2.
+      destruct (pass_rest gw rd R s1 ws rest HR1 Hlt) as (rest' & Erest & HR2). rewrite E2 in Erest. cbn [app] in Erest. subst rest'.
+      pose proof (pass_act_noput gw rd a R s1 ws H1 HA1 Hlt Hina) as HA2.
+      pose proof (pass_invS (m_ny s1) gw rd s1 ws _ HS1 Hlt Ek) as HS2.
+      assert (isd gw rd (m_rcvd s1) = false) as Hisd by (unfold isd; apply Nat.ltb_ge; exact E3).
+      rewrite Hisd in HS2. specialize (HS2 eq_refl). cbn [b2n] in HS2. rewrite Nat.add_0_r in HS2.
+      assert (InvW gw rd a (passed s1 ws)) as HW2.
+      { apply (pass_invW gw rd a s1 ws HW1 (c_wf _ _ _ _ _ H1) (c_gw _ _ _ _ _ H1 _ Hlt)).
+        unfold ws. destruct Hstv as [->| ->]; [left | right]; reflexivity. }
+      assert (InvX gw rd (passed s1 ws)) as HX2.
+      { constructor; intros HI; (assert (InvX gw rd (passed s1 ws)) as HXa; [|first [exact (x_q _ _ _ HXa HI) | exact (x_i _ _ _ HXa HI) | exact (x_s _ _ _ HXa HI)]]);
+        (apply (pass_invX gw rd s1 ws HX1 (c_wf _ _ _ _ _ H1) (c_gw _ _ _ _ _ H1 _ Hlt) (w_len _ _ _ _ HW1));
+         [intros t Ht Hg; pose proof (c_mono _ _ _ _ _ H1 t (m_rcvd s1) Ht Hlt); lia
+         | right; split; [unfold ws; rewrite (x_i _ _ _ HX1 HI _ _ _ _ Ek); reflexivity
+                          | destruct (c_fut _ _ _ _ _ H1 _ (c_gw _ _ _ _ _ H1 _ Hlt)) as (_ & _ & F3 & _); lia]]). }
+      exact (IH gw rd a R (passed s1 ws) rest cr evs H2 HR2 HA2 HS2 HW2 HX2).
+  - (* the first task is still outstanding: the wait loop *)
+    destruct Hr as [Hr|Hact]; [congruence|].
+    destruct (arrive_ready gw rd a R s1 w 0 H1 Hlt Ek Hact) as (Hout & Hcn0 & _).
+    replace (m_outst s1 =? 0) with false by (symmetry; apply Nat.eqb_neq; exact Hout).
+    assert (In w (candidates s1)) as Hwc.
+    { pose proof (c_info _ _ _ _ _ H1 (m_rcvd s1)) as G. rewrite Ek in G. destruct G as (_ & Gw' & G).
+      destruct G as [[_ Ga]|(st & Hx & _)]; [|discriminate].
+      assert (w < W) as Hw by (rewrite Gw'; apply (c_gw _ _ _ _ _ H1); exact Hlt).
+      destruct (c_q _ _ _ _ _ H1 w Hw) as [_ Qm].
+      assert (In (m_rcvd s1) (map t_idx (wq s1 w))) as Hin by (apply Qm; repeat split; [exact Hlt | symmetry; exact Gw' | exact Ga]).
+      destruct (c_fut _ _ _ _ _ H1 w Hw) as (_ & F2 & _ & F4). rewrite Hact in F4.
+      apply in_candidates. rewrite (c_wlen _ _ _ _ _ H1). split; [exact Hw|]. split; [rewrite F2; destruct (nb B w <? a w); [discriminate | reflexivity]|].
+      unfold wq in Hin. intros E. rewrite E in Hin. exact Hin. }
+    set (ev := match evs with e :: _ => e | [] => match fcandidates s1 cr with [] => FTimeout | _ => FArrive 0 end end).
+    set (sched' := match evs with [] => [] | _ :: r => r end).
+    assert (ev = FTimeout -> evs = [] -> fcandidates s1 cr = []) as Hevt.
+    { unfold ev. intros E1 ->. destruct (fcandidates s1 cr); [reflexivity | discriminate]. }
+    destruct ev as [ch|w0|] eqn:Eev.
+    2:{ (* a worker dies *) exact (IH gw rd a R s1 rest (fset cr w0 true) sched' H1 HR1 HA1 HS1 HW1 HX1). }
+    2:{ (* the poll expires *)
+      destruct (crashed_expected s1 cr) as [|wd ws] eqn:Ece.
+      - destruct evs as [|e0 evs0]; [|exact (IH gw rd a R s1 rest cr sched' H1 HR1 HA1 HS1 HW1 HX1)].
+        destruct (fcandidates s1 cr) as [|fc0 fcs] eqn:Efc; [|exact (IH gw rd a R s1 rest cr sched' H1 HR1 HA1 HS1 HW1 HX1)].
+        (* nobody can arrive and nobody is reported dead: impossible, the awaited worker is alive and has the task *)
+        exfalso. assert (nth w cr false = true) as Hcrw.
+        { destruct (nth w cr false) eqn:E; [reflexivity|]. assert (In w (fcandidates s1 cr)) as Hin by (unfold fcandidates; apply filter_In; split; [exact Hwc | rewrite E; reflexivity]).
+          rewrite Efc in Hin. contradiction. }
+        assert (In w (crashed_expected s1 cr)) as Hin.
+        { unfold crashed_expected. apply filter_In. split; [apply in_seq; apply in_candidates in Hwc; rewrite (c_wlen _ _ _ _ _ H1) in Hwc; rewrite (c_slen _ _ _ _ _ H1); lia|].
+          unfold act in Hact. rewrite Hact, Hcrw. reflexivity. }
+        rewrite Ece in Hin. contradiction.
+      - eexists _, _, _, _. split; [reflexivity|]. left. left. eexists. reflexivity. }
+    (* an arrival *)
+    destruct (fcandidates s1 cr) as [|fc0 fcs] eqn:Efc; [exact (IH gw rd a R s1 rest cr sched' H1 HR1 HA1 HS1 HW1 HX1)|]. rewrite <- Efc.
+    set (w2 := nth (ch mod length (fcandidates s1 cr)) (fcandidates s1 cr) 0).
+    assert (In w2 (candidates s1)) as Hw2c.
+    { assert (In w2 (fcandidates s1 cr)) as Hin by (apply nth_mod_in; rewrite Efc; discriminate). unfold fcandidates in Hin. apply filter_In in Hin. exact (proj1 Hin). }
+    apply in_candidates in Hw2c. rewrite (c_wlen _ _ _ _ _ H1) in Hw2c. destruct Hw2c as (Hw2 & Hd2 & Hq2). fold (wq s1 w2) in Hq2.
+    destruct (wq s1 w2) as [|tk q'] eqn:Eq; [congruence|]. clear Hq2.
+    rewrite (arrive_unfold s1 w2 tk q' Eq).
+    pose proof (arrive_inv gw rd a R s1 w2 tk q' H1 Hw2 Eq Hd2) as HAI.
+    destruct (worker_fetch c w2 (kpop s1 w2 q') tk) as [[r2 st2] k2] eqn:Efetch.
+    destruct HAI as (Hr2 & Hidx & Hgi & Hri & Hei & Ho1 & Hst & Hv & Hdsp & Hnd).
+    set (idx := t_idx tk) in *. set (a' := upd a w2 (S (a w2))) in *.
+    assert (w2 < length (m_status s1)) as Hsl by (rewrite (c_slen _ _ _ _ _ H1); exact Hw2).
+    assert (wk_q k2 = q') as Hq2k.
+    { pose proof (fetch_dead c Hkind w2 (kpop s1 w2 q') tk) as FD. rewrite Efetch in FD. exact (proj2 FD). }
+    pose proof (arrive_invS (m_ny s1) gw rd a R s1 w2 tk q' k2 r2 st2 H1 HS1 Hw2 Eq Hq2k Hgi Hri Hr2 Hei) as HSv. fold idx in HSv.
+    pose proof (arrive_invW gw rd a s1 w2 tk q' HW1 (c_wf _ _ _ _ _ H1) ltac:(rewrite (c_wlen _ _ _ _ _ H1); exact Hw2) Hw2 (c_a0 _ _ _ _ _ H1 w2 Hw2) Hri) as HWv.
+    rewrite Efetch in HWv. fold idx a' in HWv.
+    pose proof (arrive_invX gw rd a s1 w2 tk q' HX1 HW1 (c_wf _ _ _ _ _ H1) ltac:(rewrite (c_wlen _ _ _ _ _ H1); exact Hw2) Hw2 (c_a0 _ _ _ _ _ H1 w2 Hw2) Hri Eq) as HXv.
+    rewrite Efetch in HXv. specialize (HXv Hq2k). fold idx in HXv.
+    destruct (ans_cases w2 (a w2)) as [(b2 & E1 & E2 & E3)|(E1 & E2 & E3)]; rewrite E1 in Hr2; subst r2; cbn [m_rcvd].
+    + (* a batch arrives *)
+      set (sv := arrived s1 w2 k2 idx (RData b2) st2) in *.
+      assert (Rest gw rd R sv rest) as HRv by exact HR1.
+      assert (Act gw rd a' sv) as HAv.
+      { apply (Act_mono gw rd a a' s1 sv HA1); try reflexivity; [exact Hlt | intros v _ Hc; exact Hc | intros v; rewrite Hdsp; lia]. }
+      destruct (Nat.eqb_spec idx (m_rcvd s1)) as [Eidx|Nidx]; cbn [negb].
+      * (* the awaited batch: handed out *)
+        assert (info_get (m_info sv) (m_rcvd sv) = Some (gw (m_rcvd sv), Some (RData b2, st2))) as Hkv.
+        { unfold sv, arrived. cbn [m_info m_rcvd]. rewrite <- Eidx. rewrite info_get_set by exact (c_wf _ _ _ _ _ H1).
+          rewrite Nat.eqb_refl, Hgi. reflexivity. }
+        pose proof (w_i _ _ _ _ HWv _ _ _ _ Hkv) as Hst2.
+        destruct (handout gw rd a' R sv (m_wsnap s1) b2 st2 st2 rest Hv HRv HAv HSv Hlt Hkv HWv eq_refl Hst2 HXv (fun HI => x_i _ _ _ HXv HI _ _ _ _ Hkv))
+          as (rest' & sF & gw' & rd' & R' & -> & EF & HF & HRF & HAF & HSF & EnF & HWF & HXF & HPF).
+        match goal with |- context [process_data c ?S _ _ _] => assert (S = passed sv (m_wsnap s1)) as Es3 end.
+        { unfold passed, sv, arrived. cbn [m_rcvd m_info upd_core m_send m_outst m_status m_cyc m_ny m_siy m_samp m_msnaps m_last m_wsnap
+            m_snapshot m_finished m_workers m_assert isstop]. rewrite <- Eidx. rewrite info_del_set by exact (c_wf _ _ _ _ _ H1). reflexivity. }
+        rewrite Es3. change (m_rcvd sv) with (m_rcvd s1) in EF. rewrite <- Eidx, Hgi in EF. rewrite EF.
+        eexists _, _, _, _. split; [reflexivity|]. right. split; [reflexivity|]. exists gw', rd', a', R'. auto 12.
+      * (* out of order: buffered, keep waiting *)
+        exact (IH gw rd a' R sv rest cr sched' Hv HRv HAv HSv HWv HXv).
+    + (* an end-of-shard notice arrives: the worker retires, one more task is put *)
+      set (sv := arrived s1 w2 k2 idx RStop st2) in *.
+      assert (Rest gw rd R sv rest) as HRv by exact HR1.
+      assert (forall v, act sv v = if v =? w2 then false else act s1 v) as Hactv.
+      { intros v. unfold act, sv, arrived. cbn [m_status isstop]. apply nth_set_false, Hsl. }
+      assert (Act gw rd a' sv) as HAv.
+      { apply (Act_mono gw rd a a' s1 sv HA1); try reflexivity; [exact Hlt | | intros v; rewrite Hdsp; lia].
+        intros v _ Hc. rewrite Hactv in Hc. destruct (v =? w2); [discriminate | exact Hc]. }
+      assert (nact (m_status sv) + 1 = nact (m_status s1)) as Hnact.
+      { unfold sv, arrived. cbn [m_status isstop]. apply nact_set_false. exact (Hst eq_refl). }
+      assert (m_outst sv + ndat (m_info sv) < W * c_P c) as Hroomv.
+      { rewrite Hnd. destruct (c_out _ _ _ _ _ H1) as [_ O2]. unfold sv, arrived. cbn [m_outst isdata b2n]. lia. }
+      match goal with |- context [try_put_index c ?S] => set (s' := S) end.
+      assert (m_outst s' < W * c_P c) as Hout' by (unfold s'; cbn [m_outst]; unfold sv, arrived in Hroomv; cbn [m_outst] in Hroomv; lia).
+      pose proof (try_put_eq s' Hout' (c_assert _ _ _ _ _ H1)) as Eput'.
+      change (m_status s') with (m_status sv) in Eput'. change (m_cyc s') with (m_cyc sv) in Eput'.
+      assert (m_outst sv < W * c_P c) as Houtv by lia.
+      assert (info_get (m_info s1) (m_send s1) = None) as Hfresh.
+      { pose proof (c_info _ _ _ _ _ H1 (m_send s1)) as G. destruct (info_get (m_info s1) (m_send s1)) as [[? ?]|]; [lia | reflexivity]. }
+      destruct (Nat.eqb_spec idx (m_rcvd s1)) as [Eidx|Nidx].
+      * (* the awaited task was the worker's last: the notice is consumed *)
+        set (ws := match st2 with Some x => set_nth (m_wsnap s1) w2 x | None => m_wsnap s1 end).
+        assert (info_get (m_info sv) (m_rcvd sv) = Some (w2, Some (RStop, st2))) as Hkv.
+        { unfold sv, arrived. cbn [m_info m_rcvd]. rewrite <- Eidx. rewrite info_get_set by exact (c_wf _ _ _ _ _ H1).
+          rewrite Nat.eqb_refl. reflexivity. }
+        assert (act sv w2 = false) as Hina by (rewrite Hactv, Nat.eqb_refl; reflexivity).
+        assert (Some (RStop, st2) <> None) as Hsome by discriminate.
+        pose proof (pass_inv gw rd a' R sv ws _ _ Hv Hlt Hkv (or_introl Hsome)) as Hp.
+        destruct (pass_rest gw rd R sv ws rest HRv Hlt) as (rest' & Erest & HRp).
+        change (m_rcvd sv) with (m_rcvd s1) in Erest. rewrite <- Eidx, Hgi, Hri, E2 in Erest. cbn [app] in Erest. subst rest'.
+        pose proof (pass_act_noput gw rd a' R sv ws Hv HAv Hlt ltac:(change (m_rcvd sv) with (m_rcvd s1); rewrite <- Eidx, Hgi; exact Hina)) as HAp.
+        pose proof (pass_invS (m_ny s1) gw rd sv ws _ HSv Hlt Hkv) as HSp.
+        assert (isd gw rd (m_rcvd sv) = false) as Hisdv by (unfold isd; change (m_rcvd sv) with (m_rcvd s1); rewrite <- Eidx, Hgi, Hri; apply Nat.ltb_ge; exact E3).
+        rewrite Hisdv in HSp. specialize (HSp eq_refl). cbn [b2n] in HSp. rewrite Nat.add_0_r in HSp.
+        assert (InvW gw rd a' (passed sv ws)) as HWp.
+        { apply (pass_invW gw rd a' sv ws HWv (c_wf _ _ _ _ _ Hv) (c_gw _ _ _ _ _ Hv _ Hlt)).
+          pose proof (w_i _ _ _ _ HWv _ _ _ _ Hkv) as Hst2. change (m_rcvd sv) with (m_rcvd s1) in Hst2 |- *. rewrite <- Eidx in Hst2 |- *. rewrite Hgi.
+          unfold ws. change (m_wsnap sv) with (m_wsnap s1). destruct Hst2 as [->| ->]; [left | right]; reflexivity. }
+        assert (InvX gw rd (passed sv ws)) as HXp.
+        { constructor; intros HI; (assert (InvX gw rd (passed sv ws)) as HXa; [|first [exact (x_q _ _ _ HXa HI) | exact (x_i _ _ _ HXa HI) | exact (x_s _ _ _ HXa HI)]]);
+          (apply (pass_invX gw rd sv ws HXv (c_wf _ _ _ _ _ Hv) (c_gw _ _ _ _ _ Hv _ Hlt) (w_len _ _ _ _ HWv));
+           [intros t Ht Hg; pose proof (c_mono _ _ _ _ _ Hv t (m_rcvd sv) Ht Hlt); lia
+           | right; change (m_rcvd sv) with (m_rcvd s1); rewrite <- Eidx, Hgi, Hri; split;
+             [unfold ws; change (m_wsnap sv) with (m_wsnap s1); pose proof (x_i _ _ _ HXv HI _ _ _ _ Hkv) as Hx; change (m_rcvd sv) with (m_rcvd s1) in Hx; rewrite <- Eidx, Hri in Hx; rewrite Hx; reflexivity
+              | destruct (c_fut _ _ _ _ _ H1 w2 Hw2) as (_ & F2' & _); rewrite Hd2 in F2'; symmetry in F2'; apply Nat.ltb_ge in F2'; lia]]). }
+        set (sp := passed sv ws) in *.
+        assert (m_outst sp + ndat (m_info sp) < W * c_P c) as Hroomp.
+        { pose proof (ndat_del _ _ _ Hkv) as Hd. unfold isdat in Hd. cbn [snd b2n] in Hd. unfold sp, passed. cbn [upd_core m_outst m_info].
+          change (m_outst sv) with (m_outst s1 - 1) in *. lia. }
+        assert (m_outst sp < W * c_P c) as Houtp by lia.
+        pose proof (try_put_eq sp Houtp (c_assert _ _ _ _ _ Hp)) as Eputp.
+        change (m_status sp) with (m_status sv) in Eputp. change (m_cyc sp) with (m_cyc sv) in Eputp.
+        destruct (put_nopass gw rd a' R sp rest Hp HRp HAp HSp HWp HXp Hroomp) as (gw' & rd' & R' & H2 & HR2 & HA2 & HS2 & HW2 & HX2 & Er2 & Es2 & Hcase).
+        rewrite Eput'. rewrite Eputp in H2, HR2, HA2, HS2, HW2, HX2, Er2, Es2, Hcase.
+        assert (info_del (info_set (m_info s1) idx (w2, Some (RStop, st2))) idx = info_del (m_info s1) idx) as Hdl
+          by (apply info_del_set; exact (c_wf _ _ _ _ _ H1)).
+        destruct (find_worker W W (m_status sv) (m_cyc sv)) as [[w'|] c'].
+        -- cbn [put_some m_rcvd]. change (m_rcvd s') with (m_rcvd s1). replace (negb (idx =? m_rcvd s1)) with false by (symmetry; apply negb_false_iff, Nat.eqb_eq; exact Eidx).
+           match goal with |- context [next_data_f f c ?S cr sched'] => set (sA := S) end.
+           assert (agree (put_some sp w' c') sA) as Hag by (unfold agree, sA, sp, passed, sv, s', arrived; cbn; repeat split; reflexivity).
+           assert (m_info sA = m_info (put_some sp w' c')) as Hinf.
+           { unfold sA, sp, passed, sv, s', arrived. cbn [upd_core put_some m_info m_rcvd m_send]. rewrite <- Eidx, Hdl.
+             apply (info_del_app_found _ _ _ _ Hei). }
+           assert (InvC gw' rd' a' R' sA) as HA'.
+           { apply (InvC_ext gw' rd' a' R' (put_some sp w' c') sA H2 Hag); rewrite ?Hinf; auto. exact (c_wf _ _ _ _ _ H2). }
+           assert (agreeS (put_some sp w' c') sA) as HagS by (split; [exact Hag | split; reflexivity]).
+           assert (InvS (m_ny sA) gw' rd' sA) as HSA by (apply (InvS_ext (m_ny s1) gw' rd' (put_some sp w' c') sA HS2 HagS); rewrite Hinf; reflexivity).
+           assert (InvW gw' rd' a' sA) as HWA by (apply (InvW_ext gw' rd' a' (put_some sp w' c') sA HW2); [unfold agreeW; repeat split; reflexivity | intros; rewrite Hinf; reflexivity]).
+           assert (InvX gw' rd' sA) as HXA by (apply (InvX_ext gw' rd' (put_some sp w' c') sA HX2); [unfold agreeX; repeat split; reflexivity | intros; rewrite Hinf; reflexivity]).
+           exact (IH gw' rd' a' R' sA rest cr sched' HA' (Rest_agree _ _ _ _ _ _ HR2 Hag) (Act_agree _ _ _ _ _ HA2 Hag) HSA HWA HXA).
+        -- cbn [put_none m_rcvd]. change (m_rcvd s') with (m_rcvd s1). replace (negb (idx =? m_rcvd s1)) with false by (symmetry; apply negb_false_iff, Nat.eqb_eq; exact Eidx).
+           match goal with |- context [next_data_f f c ?S cr sched'] => set (sA := S) end.
+           assert (agree (put_none sp c') sA) as Hag by (unfold agree, sA, sp, passed, sv, s', arrived; cbn; repeat split; reflexivity).
+           assert (m_info sA = m_info (put_none sp c')) as Hinf.
+           { unfold sA, sp, passed, sv, s', arrived. cbn [upd_core put_none m_info m_rcvd m_send]. rewrite <- Eidx, Hdl. reflexivity. }
+           assert (InvC gw' rd' a' R' sA) as HA'.
+           { apply (InvC_ext gw' rd' a' R' (put_none sp c') sA H2 Hag); rewrite ?Hinf; auto. exact (c_wf _ _ _ _ _ H2). }
+           assert (agreeS (put_none sp c') sA) as HagS by (split; [exact Hag | split; reflexivity]).
+           assert (InvS (m_ny sA) gw' rd' sA) as HSA by (apply (InvS_ext (m_ny s1) gw' rd' (put_none sp c') sA HS2 HagS); rewrite Hinf; reflexivity).
+           assert (InvW gw' rd' a' sA) as HWA by (apply (InvW_ext gw' rd' a' (put_none sp c') sA HW2); [unfold agreeW; repeat split; reflexivity | intros; rewrite Hinf; reflexivity]).
+           assert (InvX gw' rd' sA) as HXA by (apply (InvX_ext gw' rd' (put_none sp c') sA HX2); [unfold agreeX; repeat split; reflexivity | intros; rewrite Hinf; reflexivity]).
+           exact (IH gw' rd' a' R' sA rest cr sched' HA' (Rest_agree _ _ _ _ _ _ HR2 Hag) (Act_agree _ _ _ _ _ HA2 Hag) HSA HWA HXA).
+      * (* out of order: the notice is buffered *)
+        pose proof (try_put_eq sv Houtv (c_assert _ _ _ _ _ Hv)) as Eputv.
+        destruct (put_nopass gw rd a' R sv rest Hv HRv HAv HSv HWv HXv Hroomv) as (gw' & rd' & R' & H2 & HR2 & HA2 & HS2 & HW2 & HX2 & Er2 & Es2 & Hcase).
+        rewrite Eput'. rewrite Eputv in H2, HR2, HA2, HS2, HW2, HX2, Er2, Es2, Hcase.
+        destruct (find_worker W W (m_status sv) (m_cyc sv)) as [[w'|] c'].
+        -- cbn [put_some m_rcvd]. change (m_rcvd s') with (m_rcvd s1). replace (negb (idx =? m_rcvd s1)) with true by (symmetry; apply negb_true_iff, Nat.eqb_neq; exact Nidx).
+           match goal with |- context [next_data_f f c ?S cr sched'] => set (sA := S) end.
+           destruct (mark_after_put_ext (m_info s1) idx (w2, None) (w2, Some (RStop, st2)) (m_send s1) (w', None)
+                       (c_wf _ _ _ _ _ H1) Hei Hfresh ltac:(lia)) as (X1 & X2 & X3).
+           assert (agree (put_some sv w' c') sA) as Hag by (unfold agree, sA, sv, s', arrived; cbn; repeat split; reflexivity).
+           assert (InvC gw' rd' a' R' sA) as HA'.
+           { apply (InvC_ext gw' rd' a' R' (put_some sv w' c') sA H2 Hag); [exact X1 | exact X2 | exact X3]. }
+           assert (agreeS (put_some sv w' c') sA) as HagS by (split; [exact Hag | split; reflexivity]).
+           assert (InvS (m_ny sA) gw' rd' sA) as HSA by (apply (InvS_ext (m_ny s1) gw' rd' (put_some sv w' c') sA HS2 HagS); exact X3).
+           assert (InvW gw' rd' a' sA) as HWA by (apply (InvW_ext gw' rd' a' (put_some sv w' c') sA HW2); [unfold agreeW; repeat split; reflexivity | exact X2]).
+           assert (InvX gw' rd' sA) as HXA by (apply (InvX_ext gw' rd' (put_some sv w' c') sA HX2); [unfold agreeX; repeat split; reflexivity | exact X2]).
+           exact (IH gw' rd' a' R' sA rest cr sched' HA' (Rest_agree _ _ _ _ _ _ HR2 Hag) (Act_agree _ _ _ _ _ HA2 Hag) HSA HWA HXA).
+        -- cbn [put_none m_rcvd]. change (m_rcvd s') with (m_rcvd s1). replace (negb (idx =? m_rcvd s1)) with true by (symmetry; apply negb_true_iff, Nat.eqb_neq; exact Nidx).
+           match goal with |- context [next_data_f f c ?S cr sched'] => set (sA := S) end.
+           assert (agree (put_none sv c') sA) as Hag by (unfold agree, sA, sv, s', arrived; cbn; repeat split; reflexivity).
+           assert (InvC gw' rd' a' R' sA) as HA'.
+           { apply (InvC_ext gw' rd' a' R' (put_none sv c') sA H2 Hag); [exact (c_wf _ _ _ _ _ H2) | reflexivity | reflexivity]. }
+           assert (agreeS (put_none sv c') sA) as HagS by (split; [exact Hag | split; reflexivity]).
+           assert (InvS (m_ny sA) gw' rd' sA) as HSA by (apply (InvS_ext (m_ny s1) gw' rd' (put_none sv c') sA HS2 HagS); reflexivity).
+           assert (InvW gw' rd' a' sA) as HWA by (apply (InvW_ext gw' rd' a' (put_none sv c') sA HW2); [unfold agreeW; repeat split; reflexivity | reflexivity]).
+           assert (InvX gw' rd' sA) as HXA by (apply (InvX_ext gw' rd' (put_none sv c') sA HX2); [unfold agreeX; repeat split; reflexivity | reflexivity]).
+           exact (IH gw' rd' a' R' sA rest cr sched' HA' (Rest_agree _ _ _ _ _ _ HR2 Hag) (Act_agree _ _ _ _ _ HA2 Hag) HSA HWA HXA).
+Qed.
+
+
+(* a whole history of next() calls under one fault schedule: the batches handed out are a PREFIX of what is due, in order, each once;
+   the history ends with StopIteration only after ALL of them, or with the worker-died error (or the model's fuel), or simply has
+   not ended yet *)
+Lemma run_f_iter : forall m rest gw rd a R s cr evs,
+  InvC gw rd a R s -> Rest gw rd R s rest -> Act gw rd a s -> InvS (m_ny s) gw rd s -> InvW gw rd a s -> InvX gw rd s ->
+  exists k tail, k <= length rest /\ run_f m c s cr evs = map (fun b => FO (OBatch b)) (firstn k rest) ++ tail /\
+    (tail = [] \/ exists o, tail = [o] /\ (benignF o \/ (o = FO OStop /\ k = length rest))).
+Proof.
+  induction m as [|m IH]; intros rest gw rd a R s cr evs H HR HA HS HWw HX.
+  - exists 0, []. split; [lia|]. split; [reflexivity | left; reflexivity].
+  - cbn [run_f]. unfold sdl_next_f.
+    destruct (next_data_f_iter (FUEL c s + length evs) gw rd a R s rest cr evs H HR HA HS HWw HX) as (o & s' & cr' & evs' & E & Hpost).
+    rewrite E. destruct Hpost as [Hb|Hpost].
+    + exists 0. exists [o]. split; [lia|]. destruct Hb as [[ws ->]| ->]; (split; [reflexivity|]); right; eexists; (split; [reflexivity|]); left; [left; eexists; reflexivity | right; reflexivity].
+    + destruct rest as [|b rest].
+      * subst o. exists 0, [FO OStop]. split; [cbn; lia|]. split; [reflexivity|]. right. eexists. split; [reflexivity|]. right. split; reflexivity.
+      * destruct Hpost as [-> (gw' & rd' & a' & R' & H' & HR' & HA' & HS' & HW' & HX')].
+        destruct (IH rest gw' rd' a' R' s' cr' evs' H' HR' HA' HS' HW' HX') as (k & tail & Hk & Er & Ht).
+        exists (S k), tail. split; [cbn; lia|]. split; [cbn [firstn map app]; rewrite Er; reflexivity|].
+        destruct Ht as [->|(o & -> & [Hb|[-> ->]])]; [left; reflexivity | right; eexists; split; [reflexivity | left; exact Hb] | right; eexists; split; [reflexivity | right; split; reflexivity]].
+Qed.
+
 (* __next__ *)
 Lemma sdl_next_iter gw rd a R s rest sched :
   InvC gw rd a R s -> Rest gw rd R s rest -> Act gw rd a s -> InvS (m_ny s) gw rd s -> InvW gw rd a s -> InvX gw rd s ->
@@ -2172,6 +2444,17 @@ Proof.
   destruct (replay_iter c Hkind HW HP (Bw c) 0 HW wk_fresh0 k gw rd (a0 0) R (sdl_fresh c) (reference c) sched Hk H HR HA HS HWw HX)
     as (s' & sched' & gw' & rd' & a' & R' & E & H' & _ & _ & _ & _ & HW' & _).
   rewrite E. exists gw', rd', a', R'. split; assumption.
+Qed.
+
+(* C09, iterable datasets: under ANY fault schedule (worker deaths at any moment, poll time-outs, arrivals in any order) a fresh
+   epoch never yields a wrong, repeated or misplaced batch and never ends early *)
+Theorem iter_fault_run_never_wrong : forall m cr evs,
+  exists k tail, k <= length (reference c) /\
+    run_f m c (sdl_fresh c) cr evs = map (fun b => FO (OBatch b)) (firstn k (reference c)) ++ tail /\
+    (tail = [] \/ exists o, tail = [o] /\ (benignF o \/ (o = FO OStop /\ k = length (reference c)))).
+Proof.
+  intros m cr evs. destruct fresh_start as (gw & rd & R & H & HR & HA & HS & _ & HWw & HX).
+  exact (run_f_iter c Hkind HW HP (Bw c) 0 HW wk_fresh0 m (reference c) gw rd (a0 0) R (sdl_fresh c) cr evs H HR HA HS HWw HX).
 Qed.
 
 End FreshIter.
